@@ -136,7 +136,10 @@ func (f *Fosite) DefaultClientAuthenticationStrategy(ctx context.Context, r *htt
 			// Do not re-process already enhanced errors
 			var e *jwt.ValidationError
 			if errors.As(err, &e) {
-				if e.Inner != nil {
+				// Errors raised by the key lookup above are passed on as they are; anything else the parser
+				// reports (for example an expired assertion) is a failed client authentication.
+				var rfcErr *RFC6749Error
+				if e.Inner != nil && errors.As(e.Inner, &rfcErr) {
 					return nil, e.Inner
 				}
 				return nil, errorsx.WithStack(ErrInvalidClient.WithHint("Unable to verify the integrity of the 'client_assertion' value.").WithWrap(err).WithDebug(err.Error()))
